@@ -177,6 +177,19 @@ class GeneralConfig:
         except KeyError:
             return default
 
+    def getbool(self, key, default=False):
+        """access and convert to bool
+
+        values from a config file are strings: 'false', '0', 'no', 'off' and '' mean False
+        """
+        try:
+            value = self[key]
+        except KeyError:
+            return default
+        if isinstance(value, str):
+            return value.strip().lower() not in ('', '0', 'false', 'no', 'off')
+        return bool(value)
+
     def __getattr__(self, key):
         """goodie: use generalConfig.<key> instead of generalConfig.get('<key>')"""
         return self.get(key)
